@@ -1,6 +1,7 @@
 // R-C12-3 fixture: output names that cannot be an input image, or are tested first
 #include <fstream>
 #include <string>
+namespace DFS { struct CatalogEntry { std::string name() const; char directory() const; }; }
 #include <filesystem>
 bool is_image(const std::string& ext) { return ext == "ssd" || ext == "gz"; }
 static bool is_input_image(const std::string& path, const std::string& image)
@@ -16,8 +17,9 @@ bool write_sidecar(const std::string& dest_dir, const std::string& safe_name)
   out.close();
   return out.good();
 }
-bool write_body(const std::string& dest_dir, const std::string& safe_name, const std::string& image)
+bool write_body(const std::string& dest_dir, const DFS::CatalogEntry& e, const std::string& image)
 {
+  const std::string safe_name = e.name();
   const std::string body = dest_dir + safe_name;
   if (is_input_image(body, image))
     return false;
